@@ -521,7 +521,7 @@ def make_stubs(extra=None):
     s = dict(BASE)
     for k, v in INTRINSICS.items():
         s['intr:' + k] = v
-    s['prefix'] = []
+    s['prefix'] = default_prefix_stubs()
     if extra:
         for k, v in extra.items():
             if k == 'prefix':
@@ -807,3 +807,152 @@ def i_num_val(ex, st, args, ctx):
 
 
 INTRINSICS.update({'verifIsNumber': i_is_number, 'verifNumVal': i_num_val})
+
+
+# ------------------------------------------------------------------------------------------ gnark (contract stubs, C07/C09/C12/C19)
+BN254_R = 21888242871839275222246405745257275088548364400416034343698204186575808495617
+
+
+def opq(tag, **kw):
+    return Opaque(tag, **kw)
+
+
+def i_stub_key(kind):
+    def f(ex, st, args, ctx):
+        return Opaque(kind, sys=name_of(args[0]))
+    return f
+
+
+def struct_fields(ex, tid):
+    return [f['name'] for f in ex.under(tid)['fields']]
+
+
+def frontend_NewWitness(ex, st, args, ctx):
+    used('frontend.NewWitness: records the assignment (deep snapshot); fails iff a required Variable leaf is unassigned (nil); values are reduced mod the field order')
+    asg = args[0]
+    opts = ex.cells(st, args[2]) if len(args) > 2 and args[2] is not NIL else []
+    public_only = any(isinstance(o, Opaque) and o.tag == 'publiconly' for o in opts)
+    tid = deref_type(ex, asg.t)
+    val = ex.load(st, asg.v)
+    names = struct_fields(ex, tid)
+    fields = {n: snapshot(ex, st, v) for n, v in zip(names, val.f)}
+    w = Opaque('witness', tid=tid, tname=ex.tname(tid), fields=fields, public_only=public_only)
+    st.events.append(('NewWitness', w))
+
+    def leaves(v):
+        if isinstance(v, tuple) and v and v[0] == 'slice':
+            if not isinstance(v[1], int):
+                return [x for c in v[2] for x in leaves(c)]
+            return [x for c in v[2][:v[1]] for x in leaves(c)]
+        return [v]
+    req = ['InputHash'] if public_only else [n for n in names if n not in ('BatchSize', 'Depth')]
+    missing = [n for n in req if any(x is NIL or x is None for x in leaves(fields[n]))]
+    if missing:
+        return (NIL, Iface(-1, Opaque('error', msg=S('missing assignment'), origin=ctx['pos'])))
+    return (w, NIL)
+
+
+def frontend_PublicOnly(ex, st, args, ctx):
+    return Opaque('publiconly')
+
+
+def groth16_Prove(ex, st, args, ctx):
+    used('groth16.Prove: fails (nondeterministically, = witness does not satisfy the system) or returns a proof bound to (system, witness); fails if cs and pk belong to different systems')
+    cs, pk, w = args[0], args[1], args[2]
+    st.events.append(('Prove', cs, pk, w))
+    if getattr(cs, 'sys', None) != getattr(pk, 'sys', None):
+        return (NIL, Iface(-1, Opaque('error', msg=S('key mismatch'), origin=ctx['pos'])))
+    c = z3.Bool(ex.newsym('witness_satisfies'))
+    st.draws['prove_ok#%d' % ex.fresh] = c
+    return Forks([(c, (Opaque('proof', sys=cs.sys, witness=w, coords=None), NIL), None),
+                  (z3.Not(c), (NIL, Iface(-1, Opaque('error', msg=S('constraint not satisfied'), origin=ctx['pos']))), None)])
+
+
+def wit_big(ex, v):
+    """frontend.Variable leaf -> BV256"""
+    if isinstance(v, Iface):
+        v = v.v
+    if isinstance(v, Big):
+        return v.v
+    if z3.is_bv(v):
+        return z3.ZeroExt(BIG - v.size(), v)
+    if isinstance(v, Ptr):
+        raise Unsupported('pointer leaf in witness')
+    raise Unsupported('witness leaf %r' % (v,))
+
+
+def groth16_Verify(ex, st, args, ctx):
+    used('groth16.Verify: succeeds iff the proof was produced for this system by Prove and the public witness equals the proof\'s public input modulo the field order')
+    proof, vk, w = args
+    st.events.append(('Verify', proof, vk, w))
+    if not isinstance(proof, Opaque) or getattr(proof, 'witness', None) is None:
+        return Iface(-1, Opaque('error', msg=S('invalid proof'), origin=ctx['pos']))
+    ok = z3.BoolVal(proof.sys == getattr(vk, 'sys', None) and proof.witness.tname == w.tname)
+    a = wit_big(ex, proof.witness.fields['InputHash'])
+    b = wit_big(ex, w.fields['InputHash'])
+    R = bvval(BN254_R, BIG)
+    ok = z3.And(ok, z3.URem(a, R) == z3.URem(b, R))
+    return Opaque('error', nilcond=z3.simplify(ok), msg=S('verify'), origin=ctx['pos'])
+
+
+def i_witness_count(ex, st, args, ctx):
+    return bvval(len([e for e in st.events if e[0] == 'NewWitness']), 64)
+
+
+def _lastw(st):
+    ws = [e[1] for e in st.events if e[0] == 'NewWitness']
+    if not ws:
+        raise PathEnd('panic', 'no witness recorded')
+    return ws[-1]
+
+
+def i_witness_big(ex, st, args, ctx):
+    w = _lastw(st)
+    v = w.fields[name_of(args[0])]
+    i, j = sconc(args[1], 64), sconc(args[2], 64)
+    if i >= 0:
+        v = v[2][i]
+    if j >= 0:
+        v = v[2][j]
+    return Big(z3.simplify(wit_big(ex, v)))
+
+
+def i_witness_len(ex, st, args, ctx):
+    w = _lastw(st)
+    v = w.fields[name_of(args[0])]
+    i = sconc(args[1], 64)
+    if i >= 0:
+        v = v[2][i]
+    if v is NIL:
+        return bvval(0, 64)
+    ln = v[1]
+    return bvval(ln, 64) if isinstance(ln, int) else ln
+
+
+def i_proof_is_nil(ex, st, args, ctx):
+    return z3.BoolVal(args[0] is NIL)
+
+
+def zerolog_any(ex, st, args, ctx):
+    if ctx['name'].endswith('.Fatal') or '.Fatal' in ctx['name']:
+        st.events.append(('fatal', ctx['pos']))
+    return Opaque('zerolog')
+
+
+INTRINSICS.update({'verifStubPK': i_stub_key('pk'), 'verifStubVK': i_stub_key('vk'), 'verifStubCS': i_stub_key('cs'),
+                   'verifWitnessCount': i_witness_count, 'verifWitnessBig': i_witness_big, 'verifWitnessLen': i_witness_len})
+BASE.update({'github.com/consensys/gnark/frontend.NewWitness': frontend_NewWitness, 'github.com/consensys/gnark/frontend.PublicOnly': frontend_PublicOnly,
+             'github.com/consensys/gnark/backend/groth16.Prove': groth16_Prove, 'github.com/consensys/gnark/backend/groth16.Verify': groth16_Verify,
+             '(github.com/consensys/gnark-crypto/ecc.ID).ScalarField': lambda ex, st, a, c: Opaque('field')})
+
+
+def default_prefix_stubs():
+    return [('github.com/rs/zerolog', zerolog_any), ('(*github.com/rs/zerolog', zerolog_any), ('(github.com/rs/zerolog', zerolog_any)]
+
+
+def i_same_mod_r(ex, st, args, ctx):
+    R = bvval(BN254_R, BIG)
+    return z3.simplify(z3.URem(args[0].v, R) == z3.URem(args[1].v, R))
+
+
+INTRINSICS.update({'verifSameModR': i_same_mod_r})
